@@ -10,8 +10,10 @@ META = {
             "success every non-leaf node points to existing later nodes (left[k] = k+1, k < right[k] < n) -- which is the precondition under which node_to_string is verified "
             "(C02). That the Lukasiewicz condition characterises the arity strings of unary-binary trees is the classical bridge lemma (assumed; the oracle of the bounded part "
             "enumerates by the same condition and is cross-checked against tree counts 1,1,2,4,9,21,51,127). The writers region of generate_equations is verified as well: every tree of a shape is written on exactly one physical line of "
-            "orig_trees/extra_trees (the pprint width rule), into files truncated at the start of the call. get_allowed_shapes and shape_to_functions "
-            "are not under contract. Bounded stand-in on the real generation code (not counted as proved): (i) get_allowed_shapes(n) equals the independently enumerated Łukasiewicz-valid arity "
+            "orig_trees/extra_trees (the pprint width rule), into files truncated at the start of the call. Three regions of shape_to_functions are verified: the renumbering loop (the k-th 'a' of a nullary tuple becomes a<k>, "
+            "nothing else changes), the assembly of the label array (position p receives the label of its arity class in order of appearance, for every loop index triple; "
+            "nothing is truncated by the fixed-width buffer; all_tree[pos] is a copy) and the work split (rank r rewrites exactly the positions of its split_idx slice). "
+            "get_allowed_shapes, the enumeration by itertools.product and the position counter of shape_to_functions are not under contract. Bounded stand-in on the real generation code (not counted as proved): (i) get_allowed_shapes(n) equals the independently enumerated Łukasiewicz-valid arity "
             "strings and check_tree decides validity of every arity string (exhaustive up to the stated n); (ii) the tree list written by "
             "generation equals, as a multiset, the independent enumeration of all labelled trees over the basis, for the six shipped bases and "
             "random sub-bases (through the ESR_VERIF hook) up to the stated complexity; line counts of all per-function files agree. "
@@ -29,6 +31,15 @@ def check(run):
     if dst != "unsupported" and D.canary(run, "generation/generator.py", "check_tree", c_generator.check_tree_contract) is False:
         raise RuntimeError("canary verified: engine vacuous on check_tree")
     wfailed, wsfailed, wfound = D.generation_writers(run, tier, with_bounded=False)
+    sfailed_all = []
+    for mk, tag, note in ((c_generator.stf_rename_contract, "rename", "region: body of the renumbering loop; one tuple as a heap list, ranks of the 'a' positions via the filter primitives"),
+                          (c_generator.stf_labels_contract, "labels", "region: slice along the data flow of `labels` (buffer allocation, arity masks, tuple arrays, masked stores, copy into all_tree); "
+                                                                      "fixed-width string buffer with a no-truncation obligation on every store"),
+                          (c_generator.stf_slice_contract, "slice", "region: split_idx call and the empty-slice branch; the guard of find_additional_trees is evaluated in the final state")):
+        st_, f_, _e = D.verify_function(run, "generation/generator.py", "shape_to_functions", mk, timeout_ms=8000, note=note, tag=tag)
+        sfailed_all += f_
+        if st_ != "unsupported" and tag == "labels" and D.canary(run, "generation/generator.py", "shape_to_functions", mk) is False:
+            raise RuntimeError("canary verified: engine vacuous on shape_to_functions [%s]" % tag)
     run.trust("pyvc", "z3 5.1.0")
     run.assume("bridge lemma: need-counter validity <=> preorder arity sequence of exactly one unary-binary tree (classical; used by the oracle)",
                "A-hash: PYTHONHASHSEED fixed to 0 in harness runs")
@@ -59,6 +70,9 @@ def check(run):
     if dfailed and not run.violations:
         from checks.C14 import report_unproved
         report_unproved(run, dfailed, False, "generator.check_tree")
+    if sfailed_all and not run.violations:
+        from checks.C14 import report_unproved
+        report_unproved(run, sfailed_all, False, "generator.shape_to_functions (regions rename / labels / slice)")
     if wfailed and not run.violations:
         from checks.C14 import report_unproved
         report_unproved(run, wfailed, False, "generator.generate_equations (writers region: one line per tree)")
